@@ -3,7 +3,7 @@ import re
 
 from ..facts import Broken, strip, const, walk, walk_eval, show
 from ..interp import path, Interp, NONZERO, av_const
-from .. import cfgq, own
+from .. import cfgq, own, memrules
 
 # Functions / acquisitions the ownership model cannot represent, each with its reason (one named symbol per entry).
 OWN_EXEMPT = {
@@ -354,3 +354,26 @@ def run(prog, chk):
                                  "ladder's clean/free then releases")
     if n_kind < 3:
         raise Broken("only %d kind stores found" % n_kind)
+
+    r6 = chk.rule("R6-alias-pair-free", "entry->key and entry->key_orig may be one allocation: free() of either is guarded by their "
+                  "inequality, part of a tear-down of both, or releases an allocation made earlier in the same function",
+                  floor=4)
+    judged, alias_stores = memrules.alias_pair_free(prog, r6)
+    if alias_stores < 1:
+        raise Broken("no store `e->key_orig = e->key` found: the aliasing the rule guards against has vanished")
+    if judged < 4:
+        raise Broken("only %d free(->key / ->key_orig) sites found" % judged)
+
+    r7 = chk.rule("R7-allocation-extent", "an element access p[IDX] after p = alloc(COUNT * sizeof(T)) with IDX - COUNT a constant "
+                  "stays inside the block (terminator slots are allocated); capacity increments passed to realloc are provably "
+                  ">= 1; a pointer is not dereferenced under `<=` against an exclusive end", floor=8)
+    n7 = memrules.alloc_extent(prog, r7)
+    n7g = memrules.growth_positive(prog, r7)
+    n7e = memrules.exclusive_end_guards(prog, r7)
+    if n7 < 5 or n7g < 1 or n7e < 2:
+        raise Broken("allocation-extent rule instances vanished: %d extent, %d growth, %d exclusive-end" % (n7, n7g, n7e))
+
+    r8 = chk.rule("R8-no-dangling-field-under-kind", "after `v->kind = K` a function does not release one of K's pointer fields of v "
+                  "on a path that leaves with the kind still set", primary=False, floor=5)
+    if memrules.dangling_under_kind(prog, r8) < 5:
+        raise Broken("kind stores vanished")
